@@ -456,7 +456,9 @@ func c02Body(t *testing.T, depth, devBound int) mc.Body {
 					// the newest tombstone written during an outage is the one that has to win
 					outageTomb = op.name
 				}
-				if !op.tomb && (st.disabled || st.linkDown || st.upAway) && st.aDeleted["any"] && (strings.Contains(op.name, " on A ") || strings.Contains(op.name, "A>B")) && outageDeadWrite == "" {
+				if !op.tomb && (st.disabled || st.linkDown || st.upAway) && (strings.Contains(op.name, " on A ") || strings.Contains(op.name, "A>B")) && outageDeadWrite == "" {
+					// a write on A or below it made while nothing is forwarded: it can only travel by catch-up, and the
+					// catch-up walk does not descend into a node that is deleted by the time it runs (known finding)
 					outageDeadWrite = op.name
 				}
 				if !early {
@@ -524,7 +526,7 @@ func c02Body(t *testing.T, depth, devBound int) mc.Body {
 				key := "diverged/" + k
 				if outageTomb != "" {
 					key = "tombstone-written-during-outage/" + strings.ReplaceAll(outageTomb, " ", "-")
-				} else if outageDeadWrite != "" {
+				} else if outageDeadWrite != "" && st.aDeleted["any"] {
 					// one class per side, whatever kind of write it was (point, new identity, edge point, mirror placement)
 					key = "write-below-deleted-node-during-outage/at-" + outageDeadWrite[len(outageDeadWrite)-1:]
 				}
